@@ -1,7 +1,7 @@
 import Pm.InterpSim
 /-! C08 part B, continued: the micro-steps of `Pm/InterpSim.lean` are what `innerLoop`, `onRun` and `processActionF`
     (the mirror of `_process_action`) really do with the action at the head of the queue. -/
-namespace Pm.Dev2
+namespace Pm.Dev2.Interp
 
 /-- nesting depth of the statement the action stands at -/
 def topDepth (a : Action) : Nat :=
@@ -555,11 +555,6 @@ theorem pass_refines (R : Bool) (dp : List Plug) (fuel : Nat) (c : CS) (a0 : Act
     rw [hk.dev]
     exact hk.cont h
 
-#print axioms pass_refines
 
-#print axioms innerLoop_trip
-#print axioms onRun_refines_k
-#print axioms pass_is_run
-#print axioms acts_mrun
 
-end Pm.Dev2
+end Pm.Dev2.Interp
